@@ -305,7 +305,7 @@ def solver_options(method, fatol=None, maxiter=60):
 LADDER = (1.0 / 64, 1.0 / 16, 1.0 / 4, 1.0 / 2, 1.0)
 
 
-CALL_STYLES = ('plain', 'strided-guess', 'readonly-guess', 'result-x-as-guess', 'shared-options', 'default-method', 'resolve-same-object')
+CALL_STYLES = ('plain', 'strided-guess', 'readonly-guess', 'result-x-as-guess', 'shared-options', 'default-method', 'resolve-same-object', 'default-guess')
 
 
 def solve_ladder(spec, ladder=LADDER, fatol=None, maxiter=60, perturb=None, reuse_system=False, call='plain', on_system=None):
@@ -317,6 +317,7 @@ def solve_ladder(spec, ladder=LADDER, fatol=None, maxiter=60, perturb=None, reus
       result-x-as-guess    the previous rung's result.x object itself (not a copy) is the next guess
       shared-options       ONE options dict object is handed to every solve of the ladder
       default-method       method= is left out when it is the default 'krylov'
+      default-guess        the first rung leaves guess= out (documented default: all zeros)
       resolve-same-object  after a converged rung solve() is called again on the same PRISM object from its own solution;
                            the second result is yielded as well"""
     guess = None
@@ -349,6 +350,8 @@ def solve_ladder(spec, ladder=LADDER, fatol=None, maxiter=60, perturb=None, reus
             g.setflags(write=False)
         opts = shared_opts if call == 'shared-options' else solver_options(method, fatol, maxiter)
         kw = dict(guess=g, options=opts)
+        if call == 'default-guess' and guess is None and perturb is None:
+            del kw['guess']
         if not (call == 'default-method' and method == 'krylov'):
             kw['method'] = method
 
